@@ -55,7 +55,7 @@ REPLAY_MAX_ELEMS = {'quick': 128, 'thorough': 512}
 SHARED_KNOWN = {'c04': ('repeat_negative_axis', 'take_negative_index', 'concatenate_negative_axis',
                         'split_index_beyond_extent', 'diagonal_negative_offset')}
 SAN_SUFFIX = '_sanev'      # sanitizers + events; a name of its own so that the owners' caches are not evicted
-MAX_PARALLEL_COMPILES = 6
+MAX_PARALLEL_COMPILES = 10
 
 _mods = {}
 
